@@ -26,6 +26,7 @@ type canon struct {
 	pending []int // objects whose content still has to be visited
 	proMax  int
 	noDirty bool // name prologue objects by id even when this thread modified them
+	withLoops bool
 }
 
 func (c *canon) local(id int) bool {
@@ -176,7 +177,7 @@ func (c *canon) run() {
 		if f.IsDeferred {
 			c.sb.WriteString("D")
 		}
-		if len(f.Loop) > 0 {
+		if c.withLoops && len(f.Loop) > 0 {
 			var ks []int
 			for k := range f.Loop {
 				ks = append(ks, k)
